@@ -619,10 +619,11 @@ class TranscriptInterval(AbstractFeatureInterval):
         # handle the edge case where the CDS is full length
         if self.cds.chunk_relative_location == self.chunk_relative_location:
             return EmptyLocation()
-        cds_start_on_transcript = self.cds_pos_to_transcript(0)
-        return self.chunk_relative_location.relative_interval_to_parent_location(
-            0, cds_start_on_transcript, Strand.PLUS
-        )
+        # cds_pos_to_transcript() is a position on the whole transcript; chunk_relative_location may be only the
+        # part of the transcript that lies on the sequence chunk
+        cds_start_on_transcript = self.cds_pos_to_transcript(0) - self._chunk_relative_transcript_start()
+        utr_end = min(max(cds_start_on_transcript, 0), len(self._location))
+        return self.chunk_relative_location.relative_interval_to_parent_location(0, utr_end, Strand.PLUS)
 
     def get_3p_interval(self) -> Location:
         """Returns the 3' UTR as a location, if it exists.
@@ -634,10 +635,18 @@ class TranscriptInterval(AbstractFeatureInterval):
         # handle the edge case where the CDS is full length
         if self.cds.chunk_relative_location == self.chunk_relative_location:
             return EmptyLocation()
-        cds_inclusive_end_on_transcript = self.cds_pos_to_transcript(len(self.cds.chunk_relative_location) - 1)
+        cds_inclusive_end_on_transcript = self.cds_pos_to_transcript(len(self.cds) - 1)
+        cds_end_on_transcript = cds_inclusive_end_on_transcript + 1 - self._chunk_relative_transcript_start()
+        utr_start = min(max(cds_end_on_transcript, 0), len(self._location))
         return self.chunk_relative_location.relative_interval_to_parent_location(
-            cds_inclusive_end_on_transcript + 1, len(self._location), Strand.PLUS
+            utr_start, len(self._location), Strand.PLUS
         )
+
+    def _chunk_relative_transcript_start(self) -> int:
+        """Position on the whole transcript of the first base of ``chunk_relative_location``; this is 0 unless
+        this transcript was built on a sequence chunk that does not contain its 5' end."""
+        first_pos = self._chunk_relative_bounded_chromosome_location.relative_to_parent_pos(0)
+        return self.sequence_pos_to_transcript(first_pos)
 
     @lru_cache(maxsize=1)
     def get_transcript_sequence(self) -> Sequence:
